@@ -14,6 +14,7 @@ from mc import world as W
 from mc.world import enums, CUM
 from mc.report import Reporter, Part
 from mc.par import pmap
+from mc.ref import shapes
 
 E = enums
 W.use_rsa_pool()
@@ -279,6 +280,7 @@ def _recv_msg(fd):
 
 
 def _fresh_compute(db_path, t_probe, entropy, constant, probe):
+    shapes.cap_streams()
     W.CLOCK.now = t_probe
     W.ENTROPY.counter = entropy
     W.ENTROPY.constant = constant
@@ -425,14 +427,26 @@ def histories(tier):
 
 def _worker(task):
     _pristine_start()
+    shapes.cap_streams()       # state that grows from request to request ends in an exception, not a hang
     hist, probes = task
     part = Part()
     for prefix in hist:
         for probe in probes:
-            bad, text = run_pair(prefix, probe, part)
+            try:
+                bad, text = run_pair(prefix, probe, part)
+            except shapes.Runaway as e:
+                part.violation("runaway-encoding|after=%s" % (prefix[-1] if prefix else '-'),
+                               "prefix=%s probe=%s: %s - an encoding keeps growing from request to request "
+                               "(state shared between requests in the codec)" % (list(prefix), probe, e),
+                               {'prefix': list(prefix), 'probe': probe})
+                return _finish(part, hist, probes)
             if bad:
                 part.violation(_key(prefix, probe), text, {'prefix': list(prefix), 'probe': probe})
         part.count('prefixes')
+    return _finish(part, hist, probes)
+
+
+def _finish(part, hist, probes):
     part.sample({'prefix': list(hist[-1]), 'probe': probes[0]})
     out = part.as_dict()
     out['outcomes'] = sorted(part.counters.pop('_outcomes', set()))
